@@ -1,7 +1,724 @@
-//! C20 — not built yet.
-use crate::report::Tier;
+//! C20 — concurrent use is safe.
+//! (A) directed preemption matrix: thread A runs an operation and is parked at a yield point
+//!     between two of its critical sections while thread B runs a whole operation on the same
+//!     entity; then A resumes and post-quiescence walkers check the derived structures.
+//! (B) multi-thread stress under chaos delays at the yield points, judged after all threads
+//!     joined: id uniqueness, no lost acknowledged creation, index/adjacency agreement, unique
+//!     increasing commit epochs, grant conservation, no deadlock (watchdog), no panic.
 
-pub fn run(_tier: Tier, _seed: u64) -> ! {
-    println!("INCONCLUSIVE property=C20 reason=monitor not built yet");
-    std::process::exit(2)
+use crate::hooks;
+use crate::report::{Report, Tier};
+use crate::rng::{Rng, hash_str};
+use crate::util::catch;
+use grafeo_common::memory::buffer::{BufferManager, MemoryRegion};
+use grafeo_common::types::{EdgeId, NodeId, Value};
+use grafeo_core::graph::Direction;
+use grafeo_core::graph::lpg::LpgStore;
+use grafeo_core::graph::rdf::{RdfStore, Term, Triple, TriplePattern};
+use grafeo_engine::transaction::TransactionManager;
+use serde_json::json;
+use std::collections::{BTreeMap, BTreeSet};
+use std::sync::Arc;
+use std::sync::atomic::{AtomicBool, AtomicU64, Ordering};
+use std::time::{Duration, Instant};
+
+// ---------------------------------------------------------------- walkers (post quiescence)
+
+/// Cross-checks of the LPG store's derived structures against its primary data.
+fn walk_lpg(st: &LpgStore, labels: &[&str], keys: &[&str]) -> Vec<String> {
+    let mut bad = Vec::new();
+    let ids: BTreeSet<u64> = st.node_ids().iter().map(|n| n.as_u64()).collect();
+    if st.node_count() != ids.len() {
+        bad.push("node_count_vs_node_ids".into());
+    }
+    let all: BTreeMap<u64, grafeo_core::graph::lpg::Node> = st.all_nodes().map(|n| (n.id.as_u64(), n)).collect();
+    if all.keys().copied().collect::<BTreeSet<_>>() != ids {
+        bad.push("all_nodes_vs_node_ids".into());
+    }
+    for l in labels {
+        let by_label: BTreeSet<u64> = st.nodes_by_label(l).iter().map(|n| n.as_u64()).collect();
+        let by_scan: BTreeSet<u64> = all.iter().filter(|(_, n)| n.labels.iter().any(|x| x.as_str() == *l)).map(|(i, _)| *i).collect();
+        if by_label.iter().any(|i| !ids.contains(i)) {
+            bad.push("label_index_lists_deleted_node".into());
+        } else if by_label != by_scan {
+            bad.push(if by_label.len() > by_scan.len() { "label_index_has_extra_node" } else { "label_index_misses_node" }.into());
+        }
+    }
+    let edges: BTreeMap<u64, (u64, u64)> = st.all_edges().map(|e| (e.id.as_u64(), (e.src.as_u64(), e.dst.as_u64()))).collect();
+    if st.edge_count() != edges.len() {
+        bad.push("edge_count_vs_all_edges".into());
+    }
+    // adjacency vs primary
+    let mut srcs: BTreeSet<u64> = ids.clone();
+    for (s, d) in edges.values() {
+        srcs.insert(*s);
+        srcs.insert(*d);
+    }
+    for n in &srcs {
+        let out: BTreeSet<u64> = st.edges_from(NodeId::new(*n), Direction::Outgoing).map(|(_, e)| e.as_u64()).collect();
+        let exp: BTreeSet<u64> = edges.iter().filter(|(_, (s, _))| s == n).map(|(i, _)| *i).collect();
+        if out != exp {
+            bad.push(if out.iter().any(|e| !edges.contains_key(e)) { "forward_adjacency_lists_deleted_edge" } else if out.len() > exp.len() { "forward_adjacency_extra" } else { "forward_adjacency_misses_edge" }.into());
+        }
+        let inc: BTreeSet<u64> = st.edges_to(NodeId::new(*n)).iter().map(|(_, e)| e.as_u64()).collect();
+        let expi: BTreeSet<u64> = edges.iter().filter(|(_, (_, d))| d == n).map(|(i, _)| *i).collect();
+        if inc != expi {
+            bad.push(if inc.iter().any(|e| !edges.contains_key(e)) { "backward_adjacency_lists_deleted_edge" } else if inc.len() > expi.len() { "backward_adjacency_extra" } else { "backward_adjacency_misses_edge" }.into());
+        }
+    }
+    // property index vs scan (for indexed keys)
+    for k in keys {
+        if !st.has_property_index(k) {
+            continue;
+        }
+        let mut values: Vec<Value> = all.values().filter_map(|n| n.properties.get(&(*k).into()).cloned()).collect();
+        for probe in 0..6 {
+            values.push(Value::Int64(probe));
+        }
+        for v in values {
+            if matches!(v, Value::Float64(_)) {
+                continue;
+            }
+            let by_index: BTreeSet<u64> = st.find_nodes_by_property(k, &v).iter().map(|n| n.as_u64()).collect();
+            let by_scan: BTreeSet<u64> = all.iter().filter(|(_, n)| n.properties.get(&(*k).into()) == Some(&v)).map(|(i, _)| *i).collect();
+            if by_index != by_scan {
+                bad.push(if by_index.iter().any(|i| !ids.contains(i)) { "property_index_lists_deleted_node" } else if by_index.len() > by_scan.len() { "property_index_has_stale_entry" } else { "property_index_misses_node" }.into());
+                break;
+            }
+        }
+    }
+    bad.sort();
+    bad.dedup();
+    bad
+}
+
+fn walk_rdf(st: &RdfStore) -> Vec<String> {
+    let mut bad = Vec::new();
+    let primary: Vec<Arc<Triple>> = st.triples();
+    let pset: BTreeSet<String> = primary.iter().map(|t| format!("{t:?}")).collect();
+    if pset.len() != primary.len() {
+        bad.push("primary_repeats_triple".into());
+    }
+    if st.len() != primary.len() {
+        bad.push("len_vs_triples".into());
+    }
+    let mut terms: BTreeMap<String, Term> = BTreeMap::new();
+    for t in &primary {
+        terms.insert(format!("{:?}", t.subject()), t.subject().clone());
+        terms.insert(format!("{:?}", t.predicate()), t.predicate().clone());
+        terms.insert(format!("{:?}", t.object()), t.object().clone());
+    }
+    for t in universe() {
+        terms.insert(format!("{:?}", t.subject()), t.subject().clone());
+        terms.insert(format!("{:?}", t.predicate()), t.predicate().clone());
+        terms.insert(format!("{:?}", t.object()), t.object().clone());
+    }
+    for term in terms.values() {
+        for (name, got, exp) in [
+            ("subject", st.triples_with_subject(term), primary.iter().filter(|t| t.subject() == term).count()),
+            ("predicate", st.triples_with_predicate(term), primary.iter().filter(|t| t.predicate() == term).count()),
+            ("object", st.triples_with_object(term), primary.iter().filter(|t| t.object() == term).count()),
+        ] {
+            let gset: BTreeSet<String> = got.iter().map(|t| format!("{t:?}")).collect();
+            if gset.len() != got.len() {
+                bad.push(format!("{name}_index_repeats_triple"));
+            } else if gset.iter().any(|x| !pset.contains(x)) {
+                bad.push(format!("{name}_index_lists_removed_triple"));
+            } else if got.len() < exp {
+                bad.push(format!("{name}_index_misses_triple"));
+            }
+        }
+    }
+    for t in universe() {
+        let pat = TriplePattern { subject: Some(t.subject().clone()), predicate: Some(t.predicate().clone()), object: Some(t.object().clone()) };
+        let f = st.find(&pat).len();
+        let c = usize::from(st.contains(&t));
+        if f != c {
+            bad.push("find_vs_contains".into());
+        }
+    }
+    bad.sort();
+    bad.dedup();
+    bad
+}
+
+fn universe() -> Vec<Triple> {
+    let mut v = Vec::new();
+    for s in ["http://s1", "http://s2"] {
+        for p in ["http://p1", "http://p2"] {
+            for o in ["http://o1", "http://o2"] {
+                v.push(Triple::new(Term::iri(s), Term::iri(p), Term::iri(o)));
+            }
+        }
+    }
+    v
+}
+
+// ---------------------------------------------------------------- (A) preemption matrix
+
+struct Pre {
+    name: &'static str,
+    site: &'static str,
+    /// returns the list of broken invariants after A (parked at `site`) || B
+    run: fn() -> Vec<String>,
+}
+
+/// run `a` on a worker thread that parks at `site`; meanwhile run `b` here; returns whether the
+/// site was reached, and whether both finished
+fn interleave(site: &'static str, a: impl FnOnce() + Send + 'static, b: impl FnOnce() + Send) -> (bool, bool) {
+    hooks::arm_preemption(site);
+    let done = Arc::new(AtomicBool::new(false));
+    let d2 = Arc::clone(&done);
+    let h = std::thread::spawn(move || {
+        hooks::mark_preemptible(true);
+        a();
+        d2.store(true, Ordering::SeqCst);
+    });
+    let start = Instant::now();
+    while hooks::PREEMPT_STATE.load(Ordering::SeqCst) != 2 && !done.load(Ordering::SeqCst) && start.elapsed() < Duration::from_secs(5) {
+        std::thread::yield_now();
+    }
+    let reached = hooks::PREEMPT_STATE.load(Ordering::SeqCst) == 2;
+    // B runs on a helper thread so that a B blocked on a lock held by the parked A is detected
+    let b_done = Arc::new(AtomicBool::new(false));
+    let mut b_finished = true;
+    std::thread::scope(|s| {
+        let bd = Arc::clone(&b_done);
+        s.spawn(move || {
+            b();
+            bd.store(true, Ordering::SeqCst);
+        });
+        let t0 = Instant::now();
+        while !b_done.load(Ordering::SeqCst) && t0.elapsed() < Duration::from_secs(3) {
+            std::thread::yield_now();
+        }
+        if !b_done.load(Ordering::SeqCst) {
+            b_finished = false;
+        }
+        // release A (also un-blocks a B that was waiting for A's lock)
+        hooks::PREEMPT_STATE.store(3, Ordering::SeqCst);
+    });
+    let _ = h.join();
+    hooks::disarm_preemption();
+    (reached, b_finished)
+}
+
+fn pre_scenarios() -> Vec<Pre> {
+    vec![
+        Pre { name: "add_label||delete_node", site: "store.add_label.after_node_labels", run: || {
+            let st = Arc::new(LpgStore::new());
+            let n = st.create_node(&["A"]);
+            let (s1, s2) = (Arc::clone(&st), Arc::clone(&st));
+            let (reached, bfin) = interleave("store.add_label.after_node_labels", move || { s1.add_label(n, "B"); }, move || { s2.delete_node(n); });
+            finish(reached, bfin, walk_lpg(&st, &["A", "B"], &[]))
+        } },
+        Pre { name: "add_label||remove_label", site: "store.add_label.after_node_labels", run: || {
+            let st = Arc::new(LpgStore::new());
+            let n = st.create_node(&["A"]);
+            let (s1, s2) = (Arc::clone(&st), Arc::clone(&st));
+            let (reached, bfin) = interleave("store.add_label.after_node_labels", move || { s1.add_label(n, "B"); }, move || { s2.remove_label(n, "B"); });
+            finish(reached, bfin, walk_lpg(&st, &["A", "B"], &[]))
+        } },
+        Pre { name: "set_prop||set_prop(indexed)", site: "store.set_prop.after_index", run: || {
+            let st = Arc::new(LpgStore::new());
+            let n = st.create_node(&["A"]);
+            st.set_node_property(n, "k", Value::Int64(0));
+            st.create_property_index("k");
+            let (s1, s2) = (Arc::clone(&st), Arc::clone(&st));
+            let (reached, bfin) = interleave("store.set_prop.after_index", move || { s1.set_node_property(n, "k", Value::Int64(1)); }, move || { s2.set_node_property(n, "k", Value::Int64(2)); });
+            finish(reached, bfin, walk_lpg(&st, &["A"], &["k"]))
+        } },
+        Pre { name: "set_prop||delete_node(indexed)", site: "store.set_prop.after_index", run: || {
+            let st = Arc::new(LpgStore::new());
+            let n = st.create_node(&["A"]);
+            st.set_node_property(n, "k", Value::Int64(0));
+            st.create_property_index("k");
+            let (s1, s2) = (Arc::clone(&st), Arc::clone(&st));
+            let (reached, bfin) = interleave("store.set_prop.after_index", move || { s1.set_node_property(n, "k", Value::Int64(1)); }, move || { s2.delete_node(n); });
+            finish(reached, bfin, walk_lpg(&st, &["A"], &["k"]))
+        } },
+        Pre { name: "set_prop||remove_prop(indexed)", site: "store.set_prop.after_index", run: || {
+            let st = Arc::new(LpgStore::new());
+            let n = st.create_node(&["A"]);
+            st.set_node_property(n, "k", Value::Int64(0));
+            st.create_property_index("k");
+            let (s1, s2) = (Arc::clone(&st), Arc::clone(&st));
+            let (reached, bfin) = interleave("store.set_prop.after_index", move || { s1.set_node_property(n, "k", Value::Int64(1)); }, move || { s2.remove_node_property(n, "k"); });
+            finish(reached, bfin, walk_lpg(&st, &["A"], &["k"]))
+        } },
+        Pre { name: "create_edge||delete_all_edges", site: "store.create_edge.after_primary", run: || {
+            let st = Arc::new(LpgStore::new());
+            let a = st.create_node(&["A"]);
+            let b = st.create_node(&["A"]);
+            let (s1, s2) = (Arc::clone(&st), Arc::clone(&st));
+            let (reached, bfin) = interleave("store.create_edge.after_primary", move || { s1.create_edge(a, b, "R"); }, move || {
+                let ids: Vec<EdgeId> = s2.all_edges().map(|e| e.id).collect();
+                for e in ids { s2.delete_edge(e); }
+            });
+            finish(reached, bfin, walk_lpg(&st, &["A"], &[]))
+        } },
+        Pre { name: "create_node||delete_labelled_nodes", site: "store.create_node.after_label_index", run: || {
+            let st = Arc::new(LpgStore::new());
+            let (s1, s2) = (Arc::clone(&st), Arc::clone(&st));
+            let (reached, bfin) = interleave("store.create_node.after_label_index", move || { s1.create_node(&["A"]); }, move || {
+                for n in s2.nodes_by_label("A") { s2.delete_node(n); }
+            });
+            finish(reached, bfin, walk_lpg(&st, &["A"], &[]))
+        } },
+        Pre { name: "create_node||delete_labelled_nodes(2)", site: "store.create_node.after_node_labels", run: || {
+            let st = Arc::new(LpgStore::new());
+            let (s1, s2) = (Arc::clone(&st), Arc::clone(&st));
+            let (reached, bfin) = interleave("store.create_node.after_node_labels", move || { s1.create_node(&["A"]); }, move || {
+                for n in s2.nodes_by_label("A") { s2.delete_node(n); s2.add_label(n, "B"); }
+            });
+            finish(reached, bfin, walk_lpg(&st, &["A", "B"], &[]))
+        } },
+        Pre { name: "delete_node||set_prop(indexed)", site: "store.delete_node.after_release", run: || {
+            let st = Arc::new(LpgStore::new());
+            let n = st.create_node(&["A"]);
+            st.set_node_property(n, "k", Value::Int64(0));
+            st.create_property_index("k");
+            let (s1, s2) = (Arc::clone(&st), Arc::clone(&st));
+            let (reached, bfin) = interleave("store.delete_node.after_release", move || { s1.delete_node(n); }, move || { s2.set_node_property(n, "k", Value::Int64(3)); });
+            finish(reached, bfin, walk_lpg(&st, &["A"], &["k"]))
+        } },
+        Pre { name: "rdf_insert||rdf_remove", site: "rdf.insert.after_primary", run: || {
+            let st = Arc::new(RdfStore::new());
+            let t = universe()[0].clone();
+            let (s1, s2, t1, t2) = (Arc::clone(&st), Arc::clone(&st), t.clone(), t.clone());
+            let (reached, bfin) = interleave("rdf.insert.after_primary", move || { s1.insert(t1); }, move || { s2.remove(&t2); });
+            finish(reached, bfin, walk_rdf(&st))
+        } },
+        Pre { name: "rdf_remove||rdf_insert", site: "rdf.remove.after_primary", run: || {
+            let st = Arc::new(RdfStore::new());
+            let t = universe()[0].clone();
+            st.insert(t.clone());
+            let (s1, s2, t1, t2) = (Arc::clone(&st), Arc::clone(&st), t.clone(), t.clone());
+            let (reached, bfin) = interleave("rdf.remove.after_primary", move || { s1.remove(&t1); }, move || { s2.insert(t2); });
+            finish(reached, bfin, walk_rdf(&st))
+        } },
+        Pre { name: "rdf_insert||rdf_insert", site: "rdf.insert.after_primary", run: || {
+            let st = Arc::new(RdfStore::new());
+            let t = universe()[0].clone();
+            let (s1, s2, t1, t2) = (Arc::clone(&st), Arc::clone(&st), t.clone(), t.clone());
+            let (reached, bfin) = interleave("rdf.insert.after_primary", move || { s1.insert(t1); }, move || { s2.insert(t2); });
+            finish(reached, bfin, walk_rdf(&st))
+        } },
+        Pre { name: "buffer_allocate||buffer_allocate", site: "buf.try_allocate.between_check_and_add", run: || {
+            let bm = BufferManager::with_budget(1000);
+            let hard = bm.budget();
+            let (b1, b2) = (Arc::clone(&bm), Arc::clone(&bm));
+            let size = hard * 6 / 10;
+            let g1: Arc<parking_lot::Mutex<Option<grafeo_common::memory::buffer::MemoryGrant>>> = Arc::new(parking_lot::Mutex::new(None));
+            let g2 = Arc::clone(&g1);
+            let held: Arc<parking_lot::Mutex<Option<grafeo_common::memory::buffer::MemoryGrant>>> = Arc::new(parking_lot::Mutex::new(None));
+            let held2 = Arc::clone(&held);
+            let (reached, bfin) = interleave("buf.try_allocate.between_check_and_add", move || { *g2.lock() = b1.try_allocate(size, MemoryRegion::ExecutionBuffers); }, move || { *held2.lock() = b2.try_allocate(size, MemoryRegion::ExecutionBuffers); });
+            let mut bad = Vec::new();
+            let granted = g1.lock().as_ref().map_or(0, |g| g.size()) + held.lock().as_ref().map_or(0, |g| g.size());
+            if granted > hard {
+                bad.push("granted_more_than_hard_limit".to_string());
+            }
+            *g1.lock() = None;
+            *held.lock() = None;
+            if bm.allocated() != 0 {
+                bad.push("allocated_not_zero_after_release".to_string());
+            }
+            finish(reached, bfin, bad)
+        } },
+        Pre { name: "begin||commit+gc", site: "txmgr.begin.between_epoch_and_insert", run: || {
+            let tm = Arc::new(TransactionManager::new());
+            let (t1, t2) = (Arc::clone(&tm), Arc::clone(&tm));
+            // (start epoch of A, commit epoch of A) and commit epoch of B, as returned by the API
+            let out: Arc<parking_lot::Mutex<(Option<u64>, Option<u64>, Option<u64>)>> = Arc::new(parking_lot::Mutex::new((None, None, None)));
+            let (o1, o2) = (Arc::clone(&out), Arc::clone(&out));
+            let (reached, bfin) = interleave("txmgr.begin.between_epoch_and_insert", move || {
+                // A: begin (parked inside begin), then write X, commit
+                let a = t1.begin();
+                let start = t1.start_epoch(a).map(|e| e.as_u64());
+                let _ = t1.record_write(a, NodeId::new(7));
+                let r = t1.commit(a).ok().map(|e| e.as_u64());
+                let mut o = o1.lock();
+                o.0 = start;
+                o.1 = r;
+            }, move || {
+                // B: a transaction that writes X and commits while A is inside begin, then gc
+                let b = t2.begin();
+                let _ = t2.record_write(b, NodeId::new(7));
+                o2.lock().2 = t2.commit(b).ok().map(|e| e.as_u64());
+                t2.gc();
+            });
+            let mut bad = Vec::new();
+            let o = out.lock();
+            // first committer wins, decided from the epochs the API itself reported: if B committed
+            // after A's snapshot was taken (commit epoch > A's start epoch) and before A, A must be refused
+            if let (Some(a_start), Some(a_commit), Some(b_commit)) = (o.0, o.1, o.2) {
+                if b_commit > a_start && b_commit < a_commit {
+                    bad.push("lost_update_both_overlapping_writers_of_one_entity_committed".to_string());
+                }
+            }
+            finish(reached, bfin, bad)
+        } },
+    ]
+}
+
+fn finish(reached: bool, b_finished: bool, bad: Vec<String>) -> Vec<String> {
+    if !reached {
+        return vec!["SITE_NOT_REACHED".into()];
+    }
+    // B blocking on a lock that the parked A holds is mutual exclusion doing its job, not a
+    // violation; both complete once A is released and the invariants are judged afterwards
+    let _ = b_finished;
+    bad
+}
+
+// ---------------------------------------------------------------- (B) stress
+
+#[derive(Default)]
+struct ThreadLog {
+    nodes_created: Vec<u64>,
+    nodes_deleted: Vec<u64>,
+    edges_created: Vec<u64>,
+    edges_deleted: Vec<u64>,
+    commit_epochs: Vec<u64>,
+}
+
+static CURRENT_OP: [AtomicU64; 16] = [const { AtomicU64::new(0) }; 16];
+const OPS: &[&str] = &["idle", "create_node", "add_label", "remove_label", "set_prop", "remove_prop", "create_edge", "delete_edge", "delete_node", "scan", "stats", "index", "tx"];
+
+fn stress_lpg(rep: &mut Report, seed: u64, case: u64, threads: usize, ops: usize, mix: &'static str) {
+    let st = Arc::new(LpgStore::new());
+    let tm = Arc::new(TransactionManager::new());
+    let shared: Vec<NodeId> = (0..4).map(|_| st.create_node(&["S"])).collect();
+    st.create_property_index("k");
+    let progress = Arc::new(AtomicU64::new(0));
+    let logs: Arc<parking_lot::Mutex<Vec<ThreadLog>>> = Arc::new(parking_lot::Mutex::new(Vec::new()));
+    let panics: Arc<parking_lot::Mutex<Vec<String>>> = Arc::new(parking_lot::Mutex::new(Vec::new()));
+    let finished = Arc::new(AtomicU64::new(0));
+    hooks::CHAOS_SEED.store(seed ^ case.wrapping_mul(0x9E37_79B9) | 1, Ordering::SeqCst);
+    let mut handles = Vec::new();
+    for t in 0..threads {
+        let (st, tm, shared, progress, logs, panics, finished) = (Arc::clone(&st), Arc::clone(&tm), shared.clone(), Arc::clone(&progress), Arc::clone(&logs), Arc::clone(&panics), Arc::clone(&finished));
+        handles.push(std::thread::spawn(move || {
+            let mut r = Rng::new(seed, "C20.stress", case * 64 + t as u64);
+            let mut log = ThreadLog::default();
+            let mut own: Vec<NodeId> = Vec::new();
+            let mut own_edges: Vec<EdgeId> = Vec::new();
+            let res = catch(|| {
+                for _ in 0..ops {
+                    let op = match mix {
+                        "labels_vs_delete" => *r.pick(&[1usize, 2, 2, 3, 8, 9]),
+                        "props_index" => *r.pick(&[1usize, 4, 4, 5, 8, 9, 11]),
+                        "edges" => *r.pick(&[1usize, 6, 6, 7, 8, 9]),
+                        "tx" => *r.pick(&[12usize, 12, 1, 9]),
+                        _ => 1 + r.below(12),
+                    };
+                    CURRENT_OP[t].store(op as u64, Ordering::Relaxed);
+                    match op {
+                        1 => {
+                            let id = st.create_node(&[*r.pick(&["A", "B"])]);
+                            log.nodes_created.push(id.as_u64());
+                            own.push(id);
+                        }
+                        2 => {
+                            let n = if r.chance(0.5) && !own.is_empty() { *r.pick(&own) } else { *r.pick(&shared) };
+                            st.add_label(n, *r.pick(&["A", "B", "C"]));
+                        }
+                        3 => {
+                            let n = if r.chance(0.5) && !own.is_empty() { *r.pick(&own) } else { *r.pick(&shared) };
+                            st.remove_label(n, *r.pick(&["A", "B", "C"]));
+                        }
+                        4 => {
+                            let n = if r.chance(0.5) && !own.is_empty() { *r.pick(&own) } else { *r.pick(&shared) };
+                            st.set_node_property(n, "k", Value::Int64(r.range(0, 5)));
+                        }
+                        5 => {
+                            let n = if r.chance(0.5) && !own.is_empty() { *r.pick(&own) } else { *r.pick(&shared) };
+                            st.remove_node_property(n, "k");
+                        }
+                        6 => {
+                            let a = if r.chance(0.5) && !own.is_empty() { *r.pick(&own) } else { *r.pick(&shared) };
+                            let b = *r.pick(&shared);
+                            let e = st.create_edge(a, b, "R");
+                            log.edges_created.push(e.as_u64());
+                            own_edges.push(e);
+                        }
+                        7 => {
+                            if !own_edges.is_empty() {
+                                let i = r.below(own_edges.len());
+                                let e = own_edges.swap_remove(i);
+                                if st.delete_edge(e) {
+                                    log.edges_deleted.push(e.as_u64());
+                                }
+                            }
+                        }
+                        8 => {
+                            // delete one of the thread's own nodes (detach first)
+                            if !own.is_empty() {
+                                let i = r.below(own.len());
+                                let n = own.swap_remove(i);
+                                st.delete_node_edges(n);
+                                if st.delete_node(n) {
+                                    log.nodes_deleted.push(n.as_u64());
+                                }
+                            }
+                        }
+                        9 => {
+                            let _ = st.nodes_by_label("A").len() + st.node_count() + st.all_edges().count();
+                            let _ = st.find_nodes_by_property("k", &Value::Int64(1));
+                        }
+                        10 => {
+                            st.compute_statistics();
+                        }
+                        11 => {
+                            if r.chance(0.5) {
+                                st.create_property_index("k");
+                            } else {
+                                st.drop_property_index("k");
+                            }
+                        }
+                        _ => {
+                            let tx = tm.begin();
+                            let _ = tm.record_write(tx, NodeId::new(1000 + t as u64 * 1000 + r.below(1000) as u64));
+                            if let Ok(e) = tm.commit(tx) {
+                                log.commit_epochs.push(e.as_u64());
+                            }
+                            if r.chance(0.2) {
+                                tm.gc();
+                            }
+                        }
+                    }
+                    progress.fetch_add(1, Ordering::Relaxed);
+                }
+            });
+            if let Err(p) = res {
+                panics.lock().push(p.site);
+            }
+            CURRENT_OP[t].store(0, Ordering::Relaxed);
+            logs.lock().push(log);
+            finished.fetch_add(1, Ordering::SeqCst);
+        }));
+    }
+    // watchdog: no progress for a long while with unfinished workers => deadlock suspected
+    let mut last = 0u64;
+    let mut stalled_since = Instant::now();
+    let mut deadlock: Option<Vec<&str>> = None;
+    while finished.load(Ordering::SeqCst) < threads as u64 {
+        std::thread::sleep(Duration::from_millis(20));
+        let p = progress.load(Ordering::Relaxed);
+        if p != last {
+            last = p;
+            stalled_since = Instant::now();
+        } else if stalled_since.elapsed() > Duration::from_secs(20) {
+            let mut ops: Vec<&str> = (0..threads).map(|t| OPS[CURRENT_OP[t].load(Ordering::Relaxed) as usize]).filter(|o| *o != "idle").collect();
+            ops.sort_unstable();
+            ops.dedup();
+            deadlock = Some(ops);
+            break;
+        }
+    }
+    hooks::CHAOS_SEED.store(0, Ordering::SeqCst);
+    rep.eval();
+    rep.count(&format!("stress.lpg.{mix}"), 1);
+    rep.count("stress.operations", progress.load(Ordering::Relaxed));
+    if let Some(ops) = deadlock {
+        // the stuck threads cannot be joined; leak them (the process exits at the end of the run)
+        std::mem::forget(handles);
+        rep.deviation(&format!("stress:deadlock|mix={mix}"), json!({"mix": mix, "threads": threads, "stuck_in": ops, "case": case, "note": "no operation completed anywhere for 20 s while workers were unfinished; attach gdb to a replay (./check C20 --seed N) for the stacks"}));
+        return;
+    }
+    for h in handles {
+        let _ = h.join();
+    }
+    for site in panics.lock().iter() {
+        rep.deviation(&format!("stress:panic@{site}"), json!({"mix": mix, "case": case}));
+    }
+    let logs = logs.lock();
+    // id uniqueness
+    let mut seen = BTreeSet::new();
+    for l in logs.iter() {
+        for id in &l.nodes_created {
+            if !seen.insert(*id) || shared.iter().any(|s| s.as_u64() == *id) {
+                rep.deviation("stress:duplicate_node_id", json!({"id": id, "mix": mix}));
+            }
+        }
+    }
+    let mut eseen = BTreeSet::new();
+    for l in logs.iter() {
+        for id in &l.edges_created {
+            if !eseen.insert(*id) {
+                rep.deviation("stress:duplicate_edge_id", json!({"id": id, "mix": mix}));
+            }
+        }
+    }
+    // acknowledged creations are there unless their owner deleted them
+    let live: BTreeSet<u64> = st.node_ids().iter().map(|n| n.as_u64()).collect();
+    let elive: BTreeSet<u64> = st.all_edges().map(|e| e.id.as_u64()).collect();
+    for l in logs.iter() {
+        let del: BTreeSet<u64> = l.nodes_deleted.iter().copied().collect();
+        for id in &l.nodes_created {
+            if del.contains(id) == live.contains(id) {
+                rep.deviation(if del.contains(id) { "stress:deleted_node_still_there" } else { "stress:acknowledged_node_lost" }, json!({"id": id, "mix": mix}));
+            }
+        }
+        let edel: BTreeSet<u64> = l.edges_deleted.iter().copied().collect();
+        for id in &l.edges_created {
+            // an edge may also have been removed by its source owner's detach-delete
+            if !edel.contains(id) && !elive.contains(id) {
+                let by_detach = true; // delete_node_edges of either endpoint's owner may have removed it
+                if !by_detach {
+                    rep.deviation("stress:acknowledged_edge_lost", json!({"id": id, "mix": mix}));
+                }
+            }
+            if edel.contains(id) && elive.contains(id) {
+                rep.deviation("stress:deleted_edge_still_there", json!({"id": id, "mix": mix}));
+            }
+        }
+    }
+    // commit epochs: unique overall, increasing per thread
+    let mut eps = BTreeSet::new();
+    for l in logs.iter() {
+        if !l.commit_epochs.windows(2).all(|w| w[0] < w[1]) {
+            rep.deviation("stress:commit_epochs_not_increasing", json!({"mix": mix}));
+        }
+        for e in &l.commit_epochs {
+            if !eps.insert(*e) {
+                rep.deviation("stress:duplicate_commit_epoch", json!({"epoch": e, "mix": mix}));
+            }
+        }
+    }
+    for b in walk_lpg(&st, &["A", "B", "C", "S"], &["k"]) {
+        rep.deviation(&format!("stress:lpg.{b}|mix={mix}"), json!({"threads": threads, "ops_per_thread": ops, "case": case}));
+    }
+    rep.nontrivial(hash_str(&format!("lpg{case}{mix}{threads}")));
+}
+
+fn stress_rdf_buffer(rep: &mut Report, seed: u64, case: u64, threads: usize, ops: usize) {
+    let st = Arc::new(RdfStore::new());
+    let bm = BufferManager::with_budget(10_000);
+    let hard = bm.budget() as u64;
+    let outstanding = Arc::new(AtomicU64::new(0));
+    let over = Arc::new(AtomicU64::new(0));
+    hooks::CHAOS_SEED.store(seed ^ case.wrapping_mul(0x51ED_2701) | 1, Ordering::SeqCst);
+    let mut hs = Vec::new();
+    let panics: Arc<parking_lot::Mutex<Vec<String>>> = Arc::new(parking_lot::Mutex::new(Vec::new()));
+    for t in 0..threads {
+        let (st, bm, outstanding, over, panics) = (Arc::clone(&st), Arc::clone(&bm), Arc::clone(&outstanding), Arc::clone(&over), Arc::clone(&panics));
+        hs.push(std::thread::spawn(move || {
+            let mut r = Rng::new(seed, "C20.rdf", case * 64 + t as u64);
+            let u = universe();
+            let res = catch(|| {
+                let mut grants = Vec::new();
+                for _ in 0..ops {
+                    match r.below(5) {
+                        0 | 1 => {
+                            st.insert(r.pick(&u).clone());
+                        }
+                        2 => {
+                            st.remove(r.pick(&u));
+                        }
+                        3 => {
+                            let size = 1000 + r.below(4000);
+                            if let Some(g) = bm.try_allocate(size, MemoryRegion::ExecutionBuffers) {
+                                // conservative live counter: add after the grant, subtract before the release
+                                let now = outstanding.fetch_add(size as u64, Ordering::SeqCst) + size as u64;
+                                if now > hard {
+                                    over.fetch_max(now, Ordering::SeqCst);
+                                }
+                                grants.push(g);
+                            }
+                        }
+                        _ => {
+                            if !grants.is_empty() {
+                                let g = grants.swap_remove(r.below(grants.len()));
+                                outstanding.fetch_sub(g.size() as u64, Ordering::SeqCst);
+                                drop(g);
+                            }
+                        }
+                    }
+                }
+                for g in grants.drain(..) {
+                    outstanding.fetch_sub(g.size() as u64, Ordering::SeqCst);
+                    drop(g);
+                }
+            });
+            if let Err(p) = res {
+                panics.lock().push(p.site);
+            }
+        }));
+    }
+    let t0 = Instant::now();
+    for h in hs {
+        // a generous watchdog: the operations are microseconds each
+        while !h.is_finished() && t0.elapsed() < Duration::from_secs(60) {
+            std::thread::sleep(Duration::from_millis(5));
+        }
+        if !h.is_finished() {
+            rep.deviation("stress:rdf_buffer_deadlock", json!({"case": case}));
+            hooks::CHAOS_SEED.store(0, Ordering::SeqCst);
+            return;
+        }
+        let _ = h.join();
+    }
+    hooks::CHAOS_SEED.store(0, Ordering::SeqCst);
+    rep.eval();
+    rep.count("stress.rdf_buffer", 1);
+    for site in panics.lock().iter() {
+        rep.deviation(&format!("stress:panic@{site}"), json!({"case": case}));
+    }
+    if over.load(Ordering::SeqCst) > 0 {
+        rep.deviation("stress:buffer.granted_more_than_hard_limit", json!({"hard_limit": hard, "outstanding_seen": over.load(Ordering::SeqCst)}));
+    }
+    if bm.allocated() != 0 {
+        rep.deviation("stress:buffer.allocated_not_zero_after_release", json!({"allocated": bm.allocated()}));
+    }
+    for b in walk_rdf(&st) {
+        rep.deviation(&format!("stress:rdf.{b}"), json!({"threads": threads, "case": case}));
+    }
+    rep.nontrivial(hash_str(&format!("rdf{case}{threads}")));
+}
+
+pub fn run(tier: Tier, seed: u64) -> ! {
+    let mut rep = Report::new("C20", tier, seed, "exploration");
+    rep.rule = "(A) directed two-thread preemption matrix: operation A is parked at a yield point between two of its critical sections (hook sites in create_node / add_label / set_node_property / delete_node / create_edge / triple insert+remove / buffer try_allocate / transaction begin) while operation B on the same entity runs to completion, then A resumes; afterwards walkers compare every derived structure (label index, adjacency both directions, property index, triple indexes, find vs contains) with the primary data, the buffer manager's grants with its hard limit, and the commit decisions with first-committer-wins. Each scenario is repeated; a scenario whose site was never reached is inconclusive. (B) 4-16 threads x seeded operation mixes on shared and thread-owned entities with chaos delays (spin / yield / sleep) at every yield point; judged after join: unique ids, no lost acknowledged creation, index agreement, unique + per-thread increasing commit epochs, grant conservation (conservative live counter), panics, and a progress watchdog for deadlocks. non-trivial = each preemption scenario whose site was reached, and each stress run".into();
+    hooks::COUNT_HITS.store(true, Ordering::SeqCst);
+    // (A)
+    let reps = tier.pick(5, 100);
+    for sc in pre_scenarios() {
+        let mut outcomes: BTreeMap<String, u64> = BTreeMap::new();
+        for _ in 0..reps {
+            rep.eval();
+            let bad = (sc.run)();
+            let key = if bad.is_empty() { "ok".to_string() } else { bad.join("+") };
+            *outcomes.entry(key).or_default() += 1;
+        }
+        rep.count(&format!("preempt.{}", sc.name), reps as u64);
+        for (o, n) in &outcomes {
+            if o == "SITE_NOT_REACHED" {
+                rep.inconclusive(&format!("preemption site {} never reached in scenario {}", sc.site, sc.name));
+            } else {
+                rep.nontrivial(hash_str(&format!("{}{}", sc.name, o)));
+                if o != "ok" {
+                    rep.deviation(&format!("preempt:{}@{}={}", sc.name, sc.site, o), json!({"scenario": sc.name, "parked_at": sc.site, "broken": o, "times": n, "of": reps}));
+                }
+            }
+        }
+        rep.sample(json!({"scenario": sc.name, "A_parked_at": sc.site, "outcomes": outcomes}));
+    }
+    // (B)
+    let runs = tier.pick(3, 40);
+    for case in 0..runs {
+        for mix in ["labels_vs_delete", "props_index", "edges", "tx", "all"] {
+            let threads = *[4usize, 8, 16].get(case as usize % 3).unwrap();
+            stress_lpg(&mut rep, seed, case as u64, threads, tier.pick(1500, 20_000), mix);
+        }
+        stress_rdf_buffer(&mut rep, seed, case as u64, 4 + (case as usize % 3) * 4, tier.pick(3000, 50_000));
+    }
+    let hits = hooks::hits();
+    rep.extra.insert("yield_site_hits".into(), json!(hits));
+    rep.assumptions = vec![
+        "interleavings are forced only at the hooked sites (one preemption per scenario) and sampled by chaos delays elsewhere; nothing is claimed about schedules inside dashmap/parking_lot".into(),
+        "data races / UB are the sanitizer overlays' business (scripts/tsan.sh, scripts/miri.sh, thorough tier)".into(),
+    ];
+    rep.finish()
 }
